@@ -148,6 +148,20 @@ func toGo(n any) any {
 		return m["v"].(bool)
 	case "int":
 		return num(m["v"])
+	case "bigint": // sign + decimal digits: an integer beyond TLC's range
+		var sb strings.Builder
+		if neg, _ := m["neg"].(bool); neg {
+			sb.WriteByte('-')
+		}
+		ds, _ := m["d"].([]any)
+		for _, d := range ds {
+			sb.WriteByte(byte('0' + num(d)))
+		}
+		i, err := strconv.ParseInt(sb.String(), 10, 64)
+		if err != nil {
+			panic("bad bigint " + sb.String())
+		}
+		return i
 	case "flt":
 		q := m["q"].([]any)
 		if nz, _ := m["nz"].(bool); nz {
@@ -284,7 +298,16 @@ func encInt(i int64) any {
 	if -(1<<30) <= i && i <= 1<<30 {
 		return map[string]any{"t": "int", "v": i}
 	}
-	return map[string]any{"t": "other", "s": "int:" + strconv.FormatInt(i, 10)}
+	s := strconv.FormatInt(i, 10)
+	neg := false
+	if s[0] == '-' {
+		neg, s = true, s[1:]
+	}
+	d := make([]int, len(s))
+	for k := range s {
+		d[k] = int(s[k] - '0')
+	}
+	return map[string]any{"t": "bigint", "neg": neg, "d": d}
 }
 
 // ---------------------------------------------------------------- execution
